@@ -466,11 +466,80 @@ theorem zipWith_identity_row (op : α → α → α) (e : α) (hid : ∀ a, op e
   | nil => rfl
   | cons x xs ih => simp [List.replicate_succ, hid, ih]
 
+/-- **n-d reduction over a non-last axis through `eval_reduction`**: for an operand of shape `pre ++ [A] ++ post`
+    (`post ≠ []`, any ranks) reduced over the axis of extent `A`, the dispatcher takes the VERTICAL path with the 2-d forms
+    `(prod pre · A, prod post)` / `(prod pre, prod post)`, never leaves a buffer, and row `ρ` of the result (row length
+    `prod post`) is the column-wise left fold, from the identity row, of buffer rows `ρ·A … ρ·A + A − 1`. -/
+theorem simdReduceAxis_nonLastAxis_eq_fold (N : Nat) (hN : 0 < N) (packOp : List α → List α → List α)
+    (op : α → α → α) (e zero : α) (hp : LaneWise2 N packOp op)
+    (a : NDA α) (pre post : List Nat) (A : Nat) (hsh : a.shape = pre ++ A :: post) (hpost : post ≠ []) (hw : a.WF)
+    (hA : 0 < A) (hpre : 0 < prod pre) (hout : prod pre * prod post ≠ 1) :
+    ∃ res, simdReduceAxis N packOp op zero e a (pre.length : Int) = some res ∧ res.length = prod pre * prod post ∧
+      ∀ ρ, ρ < prod pre → rowOf res (prod post) ρ
+        = (List.range A).foldl (fun acc k => List.zipWith op acc (rowOf a.data (prod post) (ρ * A + k)))
+            (List.replicate (prod post) e) := by
+  have hdim : a.shape.length = pre.length + 1 + post.length := by rw [hsh]; simp; omega
+  have hpl : 0 < post.length := by cases post with
+    | nil => exact absurd rfl hpost
+    | cons _ _ => simp
+  have hlen : a.data.length = (prod pre * A) * prod post := by
+    have : a.data.length = prod a.shape := hw
+    rw [this, hsh, prod_append]; simp [prod, Nat.mul_assoc]
+  have hkeep : keepShape a.shape pre.length = pre ++ 1 :: post := by
+    unfold keepShape; rw [hsh]; simp
+  have hRC : reductionNdReshape .vertical a.shape pre.length = (prod pre * A, prod post) := by
+    unfold reductionNdReshape
+    have h1 : ¬ (a.shape.length = 1) := by omega
+    simp only [h1, if_false]
+    rw [hsh]
+    have t1 : (pre ++ A :: post).take (pre.length + 1) = pre ++ [A] := by
+      rw [List.take_append]; simp [List.take_of_length_le]
+    have t2 : (pre ++ A :: post).drop (pre.length + 1) = post := by
+      rw [List.drop_append]; simp
+    rw [t1, t2, prod_snoc]
+  have hOut : reductionNdReshape .vertical (pre ++ 1 :: post) pre.length = (prod pre, prod post) := by
+    unfold reductionNdReshape
+    have h1 : ¬ ((pre ++ 1 :: post).length = 1) := by simp; omega
+    simp only [h1, if_false]
+    have t1 : (pre ++ 1 :: post).take (pre.length + 1) = pre ++ [1] := by
+      rw [List.take_append]; simp [List.take_of_length_le]
+    have t2 : (pre ++ 1 :: post).drop (pre.length + 1) = post := by
+      rw [List.drop_append]; simp
+    rw [t1, t2, prod_snoc, Nat.mul_one]
+  have hprodk : prod (pre ++ 1 :: post) = prod pre * prod post := by rw [prod_append]; simp [prod]
+  obtain ⟨res, h1, h2, h3⟩ := simdReduceVertical_eq_fold N hN packOp op hp a.data (pre ++ 1 :: post) a.shape pre.length
+    (prod pre * A) (prod post) (prod pre) A hA hpre rfl hRC hOut hlen
+    (List.replicate (prod pre * prod post) e) (by simp)
+  refine ⟨res, ?_, h2, ?_⟩
+  · unfold simdReduceAxis
+    have hnl : ¬ ((pre.length : Int) < -1) := by omega
+    have hn1 : ¬ ((pre.length : Int) = -1) := by omega
+    simp only [hnl, if_false, hn1, Int.toNat_natCast, hkeep, hprodk]
+    rw [if_neg hout]
+    have hnh : ¬ (False ∨ pre.length = a.shape.length - 1) := by
+      intro h; rcases h with h | h
+      · exact h
+      · omega
+    rw [if_neg hnh]
+    exact h1
+  · intro ρ hρ
+    rw [h3 ρ hρ]
+    congr 1
+    unfold rowOf
+    have hb : ρ * prod post + prod post ≤ prod pre * prod post := by
+      have : (ρ + 1) * prod post ≤ prod pre * prod post := Nat.mul_le_mul_right _ hρ
+      rw [Nat.succ_mul] at this; exact this
+    rw [List.drop_replicate, List.take_replicate]
+    congr 1
+    omega
+
 /- PARTIAL (not proved; kept as the full statement): for a well-formed row-major `a` of any rank, `axis < a.shape.length - 1`,
    more than one output element, over a commutative monoid `(op, e)`:
      simdReduceAxis N packOp op zero e a axis = scalarReduceAxis op a axis
-   What is proved instead: `simdReduceVertical_eq_loop` / `simdReduceVertical_eq_fold` on the 2-d forms
-   `reductionNdReshape .vertical a.shape axis = (Ro·A, C)`, and the last-axis case in full (`simdReduceAxis_lastAxis_eq_scalar`). -/
+   What is proved instead: `simdReduceAxis_nonLastAxis_eq_fold` above (the dispatcher on the n-d operand = column-wise fold of
+   the buffer rows `ρ·A … ρ·A+A−1`, via `simdReduceVertical_eq_loop` / `_eq_fold`); missing is only the identification of that
+   row-wise fold with the cell-wise `scalarReduceAxis` (mixed-radix decomposition of `ndindex (pre ++ 1 :: post)`).
+   The last-axis case is proved in full (`simdReduceAxis_lastAxis_eq_scalar`). -/
 
 /-! ## eval_outer: the enumerator, operands of any rank -/
 
